@@ -46,6 +46,10 @@ def parse(out):
     passed += re.findall(r"test (\S+) \.\.\. .*?\bok$", out, re.M)
     wit = re.findall(r"^WITNESS: (.*)$", out, re.M)
     built = "running " in out or "test result" in out
+    if wit and not failed:
+        # a watchdog test that had to kill the process (non-termination witness): the harness never prints FAILED
+        started = re.findall(r"^test (\S+) \.\.\. *$", out, re.M) or re.findall(r"^test (\S+) \.\.\. WITNESS", out, re.M)
+        failed = started or ["(process exited) " + wit[0][:60]]
     return sorted(set(passed)), sorted(set(failed)), wit, built
 
 
